@@ -22,6 +22,8 @@ var c11Selectors = []string{
 	"/books/{id}", "/{a}/{b}", "{+path}", "{#frag}", "{.ext}", "{/seg}", "{;p}", "{?q}", "{&q}",
 	"{x,y}", "{+x,y}", "{/x,y}", "{?x,y}", "{x:3}", "{x*}", "{/list*}", "{;list*}", "{?list*}", "/a{.x,y}", "{x}{y}",
 	"{", "}", "{}", "{x", "x}", "{x}}", "{{x}}", "{!x}", "{x:0}", "{x:abc}", "{ x }", "a{", "{=x}", "%zz{x}", "é{x}",
+	// valid templates only after trimming: as written they match nothing but themselves
+	"/books/{id} ", " /books/{id}", "\t{x}", "{x}\n", "{x} ",
 }
 
 func c11Values(r *hx.Rng) uritemplate.Values {
